@@ -152,6 +152,15 @@ def _groups():
         # without its trailing slash (path-converter values with '//' inside come from the general rules' path sets)
         "KS": S((lit("keep"), lit(""), lit("slashes")), True, merge=False, strict=True, endpoint="ks"),
         "KP": S((lit("wiki"), var("path", "p")), True, strict=True, endpoint="kp"),
+        # method sets on a defaults chain and on an alias group: canonicalisation has to respect the request method
+        "ML0": S((lit("ml"),), True, defaults={"page": 1}, methods=("GET",), endpoint="ml"),
+        "ML1": S((lit("ml"), var("int", "page")), False, methods=("GET", "POST"), endpoint="ml"),
+        "MLP": S((lit("mlp"),), True, defaults={"page": 2}, methods=("POST",), endpoint="ml"),
+        "MLA": S((lit("mlal"), var("int", "page")), False, methods=("GET", "POST"), endpoint="ml", alias=True),
+        "MF": S((lit("mform"),), False, methods=("GET",), endpoint="mf"),
+        "MS": S((lit("msubmit"),), False, methods=("POST",), endpoint="mf"),
+        "MA": S((lit("mform.php"),), False, methods=("GET", "POST"), endpoint="mf", alias=True),
+        "MAG": S((lit("mform.html"),), False, methods=("GET",), endpoint="mf", alias=True),
     }
     return d
 
@@ -166,6 +175,7 @@ WG = [ID[n] for n in ("W0", "W1", "WA", "W2", "W3", "W4")]
 SG = [[ID[a], ID[b]] for a, b in (("Z0", "Z1"), ("ZF0", "ZF1"), ("ZS0", "ZS1"), ("ZD0", "ZD1"), ("IT0", "IT1"),
                                   ("NI0", "NI1"), ("IX0", "IXA"), ("IX0", "IXB"), ("WSB", "WSL"), ("WSV", "HTB"),
                                   ("WSB", "WSV"), ("KS", "KP"))]
+SG += [[ID[n] for n in grp] for grp in (("ML0", "ML1", "MLP", "MLA"), ("MF", "MS", "MA", "MAG"))]
 
 
 def _ustr(sp):
@@ -222,8 +232,15 @@ def compatible(r, alias) -> bool:
 def valid(combo) -> bool:
     sps = [U[i] for i in combo]
     for a in sps:
-        if a["alias"] and not (any(can_express(c, a) for c in sps) and all(compatible(r, a) for r in sps)):
-            return False                     # alias canonicalisation has to be well defined (see can_express)
+        if not a["alias"]:
+            continue
+        # alias canonicalisation has to be well defined (see can_express) for EVERY method the alias accepts: among
+        # the rules that accept that method there is a canonical one, and none takes the request somewhere else
+        # (an alias accepting a method no canonical rule accepts redirects to itself - not a valid map)
+        for m in (rr.effective_methods(a["methods"]) or ("GET", "POST", "HEAD", "PUT")):
+            pool = [r for r in sps if r["methods"] is None or m in rr.effective_methods(r["methods"])]
+            if not (any(can_express(c, a) for c in pool) and all(compatible(r, a) for r in pool)):
+                return False
     s = set(combo)
     if D1 in s and D1B in s:
         return False                         # the same pattern as leaf and branch under one endpoint: ambiguous build
@@ -461,6 +478,8 @@ def check_map(combo, R, tier):
     has_canon = any(sp["defaults"] or sp["alias"] for sp in base)
     any_methods = any(sp["methods"] is not None for sp in base)
     methods = ("GET", "POST") if any_methods else ("GET",)
+    if any_methods and any(i >= NG for i in combo):
+        methods = ("GET", "POST", "HEAD")      # canonicalisation groups with method sets: HEAD rides along with GET
     # websocket binding: not for POST rules (werkzeug refuses them)
     # (and not for maps that mix protocols themselves: turning every rule into a websocket rule changes them)
     ws_ok = not any((sp["methods"] and "POST" in sp["methods"]) or sp["websocket"] for sp in base)
